@@ -95,3 +95,15 @@ unsigned x_pwd(unsigned pin, unsigned auth, unsigned event)
 	ok = btokPwdTransition(&st, (btok_pwd_event)event);
 	return (ok ? 0x10000u : 0) | ((unsigned)st.pin << 8) | (unsigned)st.auth;
 }
+
+/* ---- belt-fmt block-count table: out[(mod - lo) * 300 + (n - 1)] = b(mod, n) derived from beltFMT_keep */
+#include "bee2/crypto/belt.h"
+void x_fmt_table(octet* out, unsigned lo, unsigned hi)
+{
+	size_t base = beltFMT_keep(2, 2) - 8 * 2;	/* b(2, 1) == 1 */
+	unsigned mod;
+	size_t n;
+	for (mod = lo; mod < hi; ++mod)
+		for (n = 1; n <= 300; ++n)
+			out[(size_t)(mod - lo) * 300 + (n - 1)] = (octet)((beltFMT_keep(mod, 2 * n) - base) / 8 - 1);
+}
